@@ -95,6 +95,17 @@ func (w *wInterp) expr(e ast.Expr) wv {
 		return w.bad("unbound identifier %s", t.Name)
 	case *ast.StarExpr:
 		return w.expr(t.X)
+	case *ast.SelectorExpr:
+		// a field of an object handle: the handle is a string h, its fields are bound as "h.field"
+		if h, ok := w.expr(t.X).(string); ok && w.fail == "" {
+			if v, ok := w.lookup(h + "." + t.Sel.Name); ok {
+				return v
+			}
+		}
+		if w.fail != "" {
+			return nil
+		}
+		return w.bad("selector %s", cx(e))
 	case *ast.UnaryExpr:
 		x := w.expr(t.X)
 		switch t.Op {
@@ -471,6 +482,43 @@ func (w *wInterp) stmt(s ast.Stmt) wOutcome {
 			if o.kind == "break" {
 				break
 			}
+		}
+	case *ast.SwitchStmt:
+		w.push()
+		defer w.pop()
+		if t.Init != nil {
+			w.stmt(t.Init)
+		}
+		var tag wv = true
+		if t.Tag != nil {
+			tag = w.expr(t.Tag)
+		}
+		var chosen, deflt *ast.CaseClause
+		for _, cl := range t.Body.List {
+			cc := cl.(*ast.CaseClause)
+			if cc.List == nil {
+				deflt = cc
+				continue
+			}
+			for _, e := range cc.List {
+				v := w.expr(e)
+				if w.fail != "" {
+					return wOutcome{}
+				}
+				if chosen == nil && fmt.Sprint(v) == fmt.Sprint(tag) && (v == nil) == (tag == nil) {
+					chosen = cc
+				}
+			}
+		}
+		if chosen == nil {
+			chosen = deflt
+		}
+		if chosen != nil {
+			o := w.stmts(chosen.Body)
+			if o.kind == "break" {
+				return wOutcome{}
+			}
+			return o
 		}
 	case *ast.BranchStmt:
 		if t.Tok == token.CONTINUE {
